@@ -19,6 +19,7 @@ Translated (SPECS, in this order; later ones may call earlier ones):
                Segment.subcell, Segment.flattened, Segment.transfer_maps_merged, Segment.without_inactive_markers,
                Segment.without_inactive_zero_length_elements, Segment.inactive_elements_as_drifts, Segment.split,
                Segment.clone
+  custom_transfer_map.py   CustomTransferMap.from_merging_elements (classmethod)
   element.py   Element.track (both beam-type branches)
 
 OBJECT READING.
@@ -47,7 +48,11 @@ OBJECT READING.
     dtype=e.dtype); mul = torch.matmul; en b = b.energy; app (Track.v: Element.track with a given map);
     ladd = torch.add, lzero = torch.tensor(0.0) (only as the arguments of reduce); len_anypos l = torch.any(l > 0.0);
     len_allzero l = torch.all(l == 0.0); mkdrift l n = Drift(l, name=n, device=l.device, dtype=l.dtype);
-    from_merging_elements run b = CustomTransferMap.from_merging_elements(run, incoming_beam=b);
+    from_merging_elements run b = CustomTransferMap.from_merging_elements(run, incoming_beam=b) INSIDE
+    Segment.transfer_maps_merged (a total function there; the classmethod itself is translated separately and proved to be
+    Merge.v's from_merging on non-empty skippable runs and to raise otherwise; MergeProofs.merged_blocks_ok shows that
+    transfer_maps_merged calls it on such runs only); mkctm tm l n = cls(tm, length=l, device=.., dtype=.., name=n) for
+    cls = CustomTransferMap; torch.eye(7, ..).repeat((*e.shape, 1, 1)) = one;
     unique_name = the string Segment.__init__ gets from generate_unique_name() when no name is given.
     Element.track only: ParameterBeam / ParticleBeam are the records of Beam/Moments.v in a sum type `beam`;
     matmul(tm, mu.unsqueeze(-1)).squeeze(-1) = mvec tm mu; matmul(A, B) = mmul A B; t.transpose(-2, -1) = transpose t;
@@ -72,6 +77,10 @@ CONSTRUCT TABLE.
     break                             Ok (Break (v1, .., vn))
     return e                          Ok e
     raise TypeError(..)               Raise   (Element.track's final else)
+    assert c, "msg"                   if c then .. else Raise
+    d = <device / dtype / shape>      no binding (bookkeeping), but the evaluation of the right-hand side is kept: it can
+                                      raise (`elements[0].transfer_map(e).device`: IndexError, None has no .device)
+    (`continue`, `while`, `try`, `with`, augmented assignments other than `list += list`, tuple targets, `del`: fail)
   expressions
     [] , [a, b]                       list literals;  "text" -> string;  True/False;  None (only as a return value of
                                       an Optional result: Segment.transfer_map)
@@ -85,14 +94,19 @@ CONSTRUCT TABLE.
     all(e for x in xs)                forallb (fun x => e) xs          (e must not raise)
     [e for x in xs if c]              filter/map, or filterM/mapM when c / e can raise; two `for` clauses: flat_map
     reduce(torch.add, l, torch.tensor(0.0))     fold_left ladd l lzero
+    sum(e for x in xs)                fold_left ladd (map (fun x => e) xs) lzero   (Python's int 0 start value is lzero)
+    "s" + t,  "sep".join(e for x in xs)         String.append, join_with "sep" (map (fun x => e) xs)
+    cls(tm, length=l, device=d, dtype=t, name=n)    Leaf (mkctm tm l n)    (inside the classmethod of CustomTransferMap)
     Segment(es, name=n) / Segment(elements=es, name=n)   Seg n es ; without name (or name=None): Seg unique_name es
     super().track(b)                  Element_track app en (fun e => gen_Segment_transfer_map name elements e) b
                                       (class Segment must derive from Element only; Element.track itself is translated
                                       and tied to this form by the lemmas gen_Element_track_param / _part)
     isinstance(b, ParameterBeam) ..   match on the beam sum type (Element.track only)
 
-NOT covered: float rounding and tensor shapes (the opaque operations), nn.Module / ModuleList machinery, `__init__`
-(attribute access by element name), subclass overriding, which exception is raised, object identity beyond the Ref/New
+NOT covered: float rounding and tensor shapes (the opaque operations), nn.Module / ModuleList machinery, the rest of
+`__init__` (only checked: Segment.__init__(self, elements, name=None) starts with super().__init__(name=name) and stores
+`self.elements = nn.ModuleList(elements)`, Element.__init__ stores `self.name = name if name is not None else
+generate_unique_name()`, no other assignment to either; the attribute access by element name is not modelled), subclass overriding, which exception is raised, object identity beyond the Ref/New
 distinction above, the leaf classes' own methods, plotting, converters.  Names used by the translated functions are
 checked to be bound exactly once in their module and to come from the expected import; translated functions carry
 no decorators (properties: exactly `@property`).
@@ -107,6 +121,7 @@ from translate_maps import TranslateError, Module, COQ_KEYWORDS
 
 SEG = "cheetah/accelerator/segment.py"
 ELT = "cheetah/accelerator/element.py"
+CTM = "cheetah/accelerator/custom_transfer_map.py"
 
 # type language: "elem" "obj" "bool" "B" "M" "E" "Len" "Res" "str" "nat" "optM" "none" "meta" ; ["list", T] (T may be None)
 #                ["opt", T] (an Optional parameter)
@@ -124,6 +139,8 @@ SPECS = [
     dict(file=SEG, cls="Segment", fn="inactive_elements_as_drifts", params=EXF, ret="elem"),
     dict(file=SEG, cls="Segment", fn="split", params=[("resolution", "Res")], ret=["list", "elem"]),
     dict(file=SEG, cls="Segment", fn="clone", params=[], ret="elem"),
+    dict(file=CTM, cls="CustomTransferMap", fn="from_merging_elements", classmethod=True,
+         params=[("elements", ["list", "elem"]), ("incoming_beam", "B")], ret="elem"),
     dict(file=ELT, cls="Element", fn="track", params=[("incoming", "beam")], ret="beam", beam=True),
 ]
 
@@ -139,14 +156,14 @@ ORIGINS = {
     "ParticleBeam": ("from", "cheetah.particles"),
     "Segment": ("class", SEG),
 }
-BUILTINS = {"len", "all", "isinstance", "hasattr", "super", "TypeError", "type"}
+BUILTINS = {"len", "all", "sum", "isinstance", "hasattr", "super", "TypeError", "type"}
 
 RESERVED = set(COQ_KEYWORDS) | {
     "M", "B", "E", "L", "Len", "Res", "A", "one", "mul", "app", "en", "lzero", "ladd", "elem", "obj", "Ref", "New", "val", "Seg", "Leaf",
     "exc", "Ok", "Raise", "bind", "loop", "Next", "Break", "mapM", "filterM", "need", "item", "last_item", "set_last", "nonempty",
     "is_segment", "elements_of", "obj_elements_append", "Element_track", "d_skippable", "d_name", "d_length", "d_tmap", "d_track",
     "d_flattened", "d_split", "d_clone", "d_is_marker", "d_has_is_active", "d_is_active", "len_anypos", "len_allzero", "mkdrift",
-    "from_merging_elements", "unique_name", "list", "option", "Some", "None", "bool", "true", "false", "negb", "andb", "orb", "string",
+    "from_merging_elements", "unique_name", "mkctm", "join_with", "append", "list", "option", "Some", "None", "bool", "true", "false", "negb", "andb", "orb", "string",
     "nat", "length", "map", "filter", "flat_map", "forallb", "existsb", "fold_left", "String", "Nat", "beam", "BParam", "BPart",
     "mvec", "mmul", "transpose", "mkPart", "mkParam", "parts", "pE", "charges", "surv", "pmu", "pcov", "qE", "qQ", "add", "zero",
     "V7", "M7", "st", "o", "c",
@@ -188,6 +205,7 @@ Variable d_is_active : elem -> exc bool.
 Variables len_anypos len_allzero : Len -> bool.
 Variable mkdrift : Len -> string -> L.
 Variable from_merging_elements : list elem -> B -> elem.
+Variable mkctm : M -> Len -> string -> L.
 Variable unique_name : string.
 
 '''
@@ -199,7 +217,7 @@ Variables (add amul : A -> A -> A).
 Inductive beam : Type := BParam (b : ParamBeam A) | BPart (b : PartBeam A).
 
 '''
-FOOTER = "End ElementGen.\n"
+FOOTER = "End ElementGen.\nArguments BParam {A} b.\nArguments BPart {A} b.\n"
 
 
 def tstr(t):
@@ -380,7 +398,10 @@ class Fn:
             self.fail(n, f"attribute .{a} of an element is outside the translated fragment")
         if v.ty == "B" and a == "energy":
             return Val(f"(en {v.t})", "E")
-        if v.ty in ("Len", "E") and a in ("device", "dtype"):
+        if v.ty in ("Len", "E", "M") and a in ("device", "dtype", "shape"):
+            return Val("tt", "meta")
+        if v.ty == "optM" and a in ("device", "dtype", "shape"):      # None has no such attribute
+            self.mbind(pre, f"need {v.t}", "M", "tm")
             return Val("tt", "meta")
         if v.ty in ("pbeam", "qbeam"):
             return self.beam_attr(v, a, n)
@@ -401,6 +422,14 @@ class Fn:
         if isinstance(n.op, ast.Not):
             return Val(f"(negb {self.truth(self.ev(n.operand, env, pre), n)})", "bool")
         self.fail(n, f"unsupported unary operator {type(n.op).__name__}")
+
+    def e_BinOp(self, n, env, pre):
+        if not isinstance(n.op, ast.Add):
+            self.fail(n, f"unsupported binary operator {type(n.op).__name__}")
+        a, b = self.ev(n.left, env, pre), self.ev(n.right, env, pre)
+        if a.ty != "str" or b.ty != "str":
+            self.fail(n, f"+ is understood on strings only, not on {tstr(a.ty)} / {tstr(b.ty)}")
+        return Val(f"(String.append {a.t} {b.t})", "str")
 
     def e_BoolOp(self, n, env, pre):
         is_and = isinstance(n.op, ast.And)
@@ -561,7 +590,7 @@ class Fn:
             v = self.ev(n.args[0], env, pre)
             if not (isinstance(v.ty, list) and v.ty[0] == "list"):
                 self.fail(n, f"len of a {tstr(v.ty)} value")
-            return Val(f"(length {v.t})", "nat")
+            return Val(f"(List.length {v.t})", "nat")
         if g == "all":
             if len(n.args) != 1 or n.keywords or not isinstance(n.args[0], ast.GeneratorExp):
                 self.fail(n, "all(..) is understood on a generator expression only")
@@ -574,6 +603,27 @@ class Fn:
             if sub:
                 self.fail(n, "all(..) over an expression that can raise")
             return Val(f"(forallb (fun {x} => {c}) {xs.t})", "bool")
+        if g == "sum":
+            if len(n.args) != 1 or n.keywords or not isinstance(n.args[0], ast.GeneratorExp):
+                self.fail(n, "sum(..) is understood on a generator expression only")
+            lv = self.e_ListComp(n.args[0], env, pre)
+            self.want(lv, ["list", "Len"], n, "summands")
+            return Val(f"(fold_left ladd {lv.t} lzero)", "Len")
+        if isinstance(f, ast.Name) and f.id == "cls" and self.spec.get("classmethod") and "cls" not in env:
+            kw = self.kwargs(n, (env, pre), ("length", "name", "device", "dtype"))
+            if len(n.args) != 1 or set(kw) != {"length", "name", "device", "dtype"}:
+                self.fail(n, "cls(..): expected cls(tm, length=.., device=.., dtype=.., name=..)")
+            tm = self.want(self.ev(n.args[0], env, pre), "M", n.args[0], "transfer map of the new CustomTransferMap")
+            ln = self.want(self.ev(kw["length"], env, pre), "Len", kw["length"], "length of the new CustomTransferMap")
+            nm = self.want(self.ev(kw["name"], env, pre), "str", kw["name"], "name of the new CustomTransferMap")
+            for k in ("device", "dtype"):
+                self.meta(kw[k], env, pre, f"keyword {k}")
+            return Val(f"(Leaf (mkctm {tm} {ln} {nm}))", "elem", fresh=True)
+        if (isinstance(f, ast.Attribute) and f.attr == "join" and isinstance(f.value, ast.Constant) and isinstance(f.value.value, str)
+                and len(n.args) == 1 and not n.keywords and isinstance(n.args[0], ast.GeneratorExp)):
+            lv = self.e_ListComp(n.args[0], env, pre)
+            self.want(lv, ["list", "str"], n, "joined strings")
+            return Val(f"(join_with {coq_string(f.value.value)} {lv.t})", "str")
         if g == "isinstance":
             if len(n.args) != 2 or n.keywords:
                 self.fail(n, "isinstance takes two arguments")
@@ -672,6 +722,13 @@ class Fn:
                 return Val(f"({term})", sig[1])
             if self.spec.get("beam"):
                 return self.beam_method(v, f.attr, n, env, pre)
+            if v.ty == "M" and v.t == "one" and f.attr == "repeat" and not n.keywords and len(n.args) == 1 and isinstance(n.args[0], ast.Tuple):
+                # torch.eye(7, ..).repeat((*shape, 1, 1)): the identity for every sample of the batch
+                el = n.args[0].elts
+                if (len(el) == 3 and isinstance(el[0], ast.Starred) and self.ev(el[0].value, env, pre).ty == "meta"
+                        and all(self.nat_literal(x) == 1 for x in el[1:])):
+                    return Val("one", "M")
+                self.fail(n, "torch.eye(7).repeat(..): only ((*shape, 1, 1)) is understood")
             self.fail(n, f"method .{f.attr}(..) of a {tstr(v.ty)} value is outside the translated fragment")
         if g in ("ParameterBeam", "ParticleBeam") and self.spec.get("beam"):
             return self.beam_construct(g, n, env, pre)
@@ -826,23 +883,26 @@ class Fn:
         def add(x):
             if x not in out:
                 out.append(x)
+        def visit(nd):          # depth first, in source order (the order of the loop-state tuple follows it)
+            if isinstance(nd, (ast.Assign, ast.AugAssign, ast.AnnAssign)):
+                for t in (nd.targets if isinstance(nd, ast.Assign) else [nd.target]):
+                    for x in ast.walk(t):
+                        if isinstance(x, ast.Name):
+                            add(x.id)
+            elif isinstance(nd, ast.Call) and isinstance(nd.func, ast.Attribute) and nd.func.attr in ("append", "extend", "insert", "pop", "clear", "remove", "sort", "reverse"):
+                base = nd.func.value
+                while isinstance(base, (ast.Attribute, ast.Subscript)):
+                    base = base.value
+                if isinstance(base, ast.Name):
+                    add(base.id)
+            elif isinstance(nd, (ast.For, ast.comprehension)) and isinstance(nd.target, ast.Name):
+                add(nd.target.id)
+            elif isinstance(nd, (ast.NamedExpr, ast.Delete, ast.With, ast.Try, ast.Global, ast.Nonlocal)):
+                self.fail(nd, f"unsupported syntax {type(nd).__name__}")
+            for ch in ast.iter_child_nodes(nd):
+                visit(ch)
         for st in stmts:
-            for nd in ast.walk(st):
-                if isinstance(nd, (ast.Assign, ast.AugAssign, ast.AnnAssign)):
-                    for t in (nd.targets if isinstance(nd, ast.Assign) else [nd.target]):
-                        for x in ast.walk(t):
-                            if isinstance(x, ast.Name):
-                                add(x.id)
-                elif isinstance(nd, ast.Call) and isinstance(nd.func, ast.Attribute) and nd.func.attr in ("append", "extend", "insert", "pop", "clear", "remove", "sort", "reverse"):
-                    base = nd.func.value
-                    while isinstance(base, (ast.Attribute, ast.Subscript)):
-                        base = base.value
-                    if isinstance(base, ast.Name):
-                        add(base.id)
-                elif isinstance(nd, (ast.For, ast.comprehension)) and isinstance(nd.target, ast.Name):
-                    add(nd.target.id)
-                elif isinstance(nd, (ast.NamedExpr, ast.Delete, ast.With, ast.Try, ast.Global, ast.Nonlocal)):
-                    self.fail(nd, f"unsupported syntax {type(nd).__name__}")
+            visit(st)
         return out
 
     def tuple_of(self, names):
@@ -853,7 +913,10 @@ class Fn:
         env = dict(env)
         nm = self.fresh(py)
         env[py] = Val(nm, v.ty)
-        return f"let {nm} := {v.t} in\n  ", env
+        t = v.t
+        if t == "[]" and isinstance(v.ty, list) and v.ty[1] is not None:
+            t = f"(@nil {coq_ty(v.ty[1])})"
+        return f"let {nm} := {t} in\n  ", env
 
     def local_list(self, name, env, node):
         v = env.get(name)
@@ -892,6 +955,12 @@ class Fn:
             else:
                 t = self.want(v, ret, s, "returned value")
             return self.wrap(pre, f"Ok {t}")
+        if isinstance(s, ast.Assert):
+            if s.msg is not None and not (isinstance(s.msg, ast.Constant) and isinstance(s.msg.value, str)):
+                self.fail(s, "assert message must be a string literal")
+            pre = []
+            c = self.truth(self.ev(s.test, env, pre), s.test)
+            return self.wrap(pre, f"if {c}\n  then ({go(env)})\n  else Raise")
         if isinstance(s, ast.Raise):
             if not (isinstance(s.exc, ast.Call) and self.glob(s.exc.func, env) == "TypeError") or s.cause is not None:
                 self.fail(s, "only `raise TypeError(..)` is understood")
@@ -915,14 +984,20 @@ class Fn:
                 self.fail(s, f"a second name for the list {s.value.id!r} (aliasing is outside the functional reading)")
             pre = []
             v = self.ev(s.value, env, pre)
-            if v.ty in ("none", "meta"):
+            if v.ty == "none":
                 self.fail(s, f"assignment of a {v.ty} value")
+            if v.ty == "meta":          # device / dtype bookkeeping: no value, but the evaluation (which may raise) is kept
+                if tg.id in env and env[tg.id].ty != "meta":
+                    self.fail(s, f"{tg.id!r} changes its type")
+                env2 = dict(env)
+                env2[tg.id] = Val("tt", "meta")
+                return self.wrap(pre, go(env2))
             if isinstance(s.value, ast.List) and not s.value.elts:
                 self.locals_created.add(tg.id)
                 if tg.id in self.objlists:
                     v = Val("[]", ["list", "obj"])
                 elif tg.id in env and isinstance(env[tg.id].ty, list):
-                    v = Val("[]", env[tg.id].ty if env[tg.id].ty[0] == "list" else ["list", None])
+                    v = Val("[]", env[tg.id].ty if env[tg.id].ty[0] == "list" else list(env[tg.id].ty[1]))
             elif isinstance(v.ty, list) and v.ty[0] == "list":
                 if isinstance(s.value, (ast.ListComp, ast.List)):
                     self.locals_created.add(tg.id)
@@ -1032,7 +1107,7 @@ class Fn:
         if not (isinstance(xs.ty, list) and xs.ty[0] == "list" and xs.ty[1] is not None):
             self.fail(s.iter, f"loop over a {tstr(xs.ty)} value")
         asg = self.assigned(s.body)
-        state = [x for x in env if x in asg and x != "self"]
+        state = [x for x in asg if x in env and x != "self"]       # in the order of their first assignment in the body
         if not state:
             self.fail(s, "loop whose body assigns no variable bound before the loop")
         if isinstance(s.iter, ast.Name) and s.iter.id in state:
@@ -1060,21 +1135,38 @@ class Fn:
         destr_in = f"let '{self.tuple_of(names_in)} := {st_in} in\n  " if len(state) > 1 else f"let {names_in[0]} := {st_in} in\n  "
         destr_out = f"let '{self.tuple_of(names_out)} := {st_out} in\n  " if len(state) > 1 else f"let {names_out[0]} := {st_out} in\n  "
         after = self.block(rest, env_a, k, lp)
-        loop = f"loop (fun {st_in} {xn} =>\n  {destr_in}{body})\n  {xs.t} {self.tuple_of([env[x].t for x in state])}"
+        def ty_of(t):
+            if isinstance(t, list) and t[1] is None:
+                return "(list _)"
+            return coq_ty(t)
+        st_ty = " * ".join(ty_of(env[x].ty) for x in state)
+        loop = f"loop (fun ({st_in} : {st_ty}) {xn} =>\n  {destr_in}{body})\n  {xs.t} {self.tuple_of([env[x].t for x in state])}"
         return self.wrap(pre, f"({st_out} <- {loop} ;;\n  {destr_out}{after})")
+
+    def check_ctm(self, mod):
+        """class CustomTransferMap(Element) with __init__(self, predefined_transfer_map, length=None, name=None, device=None, dtype=None)"""
+        c = mod.bind["CustomTransferMap"][0][2]
+        if [ast.dump(x) for x in c.bases] != ["Name(id='Element', ctx=Load())"] or c.keywords or c.decorator_list:
+            mod.fail(c, "class CustomTransferMap must derive from Element only")
+        self.origin("Element", c)
+        _, init, _ = find_function(mod, dict(cls="CustomTransferMap", fn="__init__"))
+        a = init.args
+        if ([x.arg for x in a.args] != ["self", "predefined_transfer_map", "length", "name", "device", "dtype"] or a.vararg or a.kwarg or a.kwonlyargs
+                or a.posonlyargs or len(a.defaults) != 4 or not all(isinstance(d, ast.Constant) and d.value is None for d in a.defaults)):
+            mod.fail(init, "signature of CustomTransferMap.__init__ changed")
 
     # ------------------------------------------------------------------ whole function
     def translate(self):
         spec, mod = self.spec, self.mod
-        cnode, f, cb = mod.find_function(spec["cls"], spec["fn"], spec.get("prop", False))
+        cnode, f, cb = find_function(mod, spec)
         self.fnode, self.class_bind = f, cb
         a = f.args
         if a.vararg or a.kwarg or a.kwonlyargs or a.posonlyargs:
             mod.fail(f, "unsupported parameter syntax")
         pos = [x.arg for x in a.args]
         defaults = [None] * (len(pos) - len(a.defaults)) + list(a.defaults)
-        if not pos or pos[0] != "self":
-            mod.fail(f, "method without self")
+        if not pos or pos[0] != ("cls" if spec.get("classmethod") else "self"):
+            mod.fail(f, "method without self / cls")
         pos, defaults = pos[1:], defaults[1:]
         if pos != [p for p, _ in spec["params"]]:
             mod.fail(f, f"signature changed: parameters {pos}, expected {[p for p, _ in spec['params']]}")
@@ -1088,6 +1180,8 @@ class Fn:
             self.used.add("self_transfer_map")
             env["self"] = {}
             binders.append(("self_transfer_map", "A -> exc (option (M7 A))"))
+        elif spec.get("classmethod"):
+            self.check_ctm(mod)
         else:
             nm, es = self.fresh("name"), self.fresh("elements")
             env["self"] = {"name": Val(nm, "str"), "elements": Val(es, ["list", "elem"])}
@@ -1104,6 +1198,25 @@ class Fn:
         bs = " ".join(f"({n} : {t})" for n, t in binders)
         text = f"Definition {coq} {bs} : exc {coq_ty(spec['ret'])} :=\n  {body}.\n"
         return coq, text, f
+
+
+def find_function(mod, spec):
+    """Module.find_function with the decorator list the spec asks for (none, @property or @classmethod)."""
+    want = ["Name(id='property', ctx=Load())"] if spec.get("prop") else ["Name(id='classmethod', ctx=Load())"] if spec.get("classmethod") else []
+    cls, fn = spec["cls"], spec["fn"]
+    b = mod.bind.get(cls, [])
+    if len(b) != 1 or b[0][0] != "class":
+        raise TranslateError(f"class {cls} is not defined exactly once", mod.rel, 0)
+    cnode = b[0][2]
+    cb = {}
+    mod._collect(cnode.body, cb)
+    b = cb.get(fn, [])
+    if len(b) != 1 or b[0][0] != "def" or not isinstance(b[0][2], ast.FunctionDef):
+        raise TranslateError(f"{cls}.{fn} is not defined exactly once as a function", mod.rel, getattr(cnode, "lineno", 0))
+    f = b[0][2]
+    if [ast.dump(d) for d in f.decorator_list] != want:
+        mod.fail(f, f"unexpected decorators on {cls}.{fn}")
+    return cnode, f, cb
 
 
 class Translator:
@@ -1139,6 +1252,22 @@ class Translator:
                 or not (isinstance(a.defaults[0], ast.Constant) and a.defaults[0].value is None)):
             m.fail(init, "signature of Segment.__init__ changed (expected (self, elements, name=None))")
         self.segment_init = ("elements", "name")
+        # the constructor stores its arguments as the reading assumes: super().__init__(name=name) first, self.elements = nn.ModuleList(elements)
+        # once, and nothing else in the class assigns self.elements / self.name
+        def stores(cnode, attr):
+            return [nd for nd in ast.walk(cnode) if isinstance(nd, ast.Attribute) and nd.attr == attr and isinstance(nd.ctx, (ast.Store, ast.Del))
+                    and isinstance(nd.value, ast.Name) and nd.value.id == "self"]
+        want_el = ast.dump(ast.parse("self.elements = nn.ModuleList(elements)").body[0])
+        want_super = ast.dump(ast.parse("super().__init__(name=name)").body[0])
+        body = [st for st in init.body if not (isinstance(st, ast.Expr) and isinstance(st.value, ast.Constant))]
+        if not body or ast.dump(body[0]) != want_super:
+            m.fail(init, "Segment.__init__ must start with super().__init__(name=name)")
+        if [ast.dump(st) for st in init.body if isinstance(st, ast.Assign) and any(isinstance(t, ast.Attribute) and t.attr == "elements" for t in st.targets)] != [want_el] \
+                or len(stores(c, "elements")) != 1 or stores(c, "name"):
+            m.fail(init, "Segment must store its elements by exactly `self.elements = nn.ModuleList(elements)` in __init__ and never assign self.name")
+        nb = m.bind.get("nn", [])
+        if len(nb) != 1 or (nb[0][0], nb[0][1]) != ("from", "torch"):
+            m.fail(init, "nn is not imported exactly once from torch")
         for nm in ("__getattr__", "__getattribute__", "__setattr__", "__call__", "forward", "__new__", "__init_subclass__"):
             if nm in cb:
                 m.fail(cb[nm][0][2], f"class Segment defines {nm!r}: attribute access / calls are no longer what the reading assumes")
@@ -1152,6 +1281,12 @@ class Translator:
         for nm in ("__getattr__", "__getattribute__", "__setattr__", "__new__", "__init_subclass__"):
             if nm in ecb:
                 e.fail(ecb[nm][0][2], f"class Element defines {nm!r}")
+        _, einit, _ = find_function(e, dict(cls="Element", fn="__init__"))
+        want_name = ast.dump(ast.parse("self.name = name if name is not None else generate_unique_name()").body[0])
+        names = [st for st in ast.walk(ec) if isinstance(st, ast.Assign) and any(isinstance(t, ast.Attribute) and t.attr == "name" and isinstance(t.value, ast.Name)
+                                                                                  and t.value.id == "self" for t in st.targets)]
+        if [ast.dump(st) for st in names] != [want_name] or names[0] not in einit.body:
+            e.fail(einit, "Element.__init__ must store the name by exactly `self.name = name if name is not None else generate_unique_name()`")
 
     def run(self):
         self.check_classes()
@@ -1178,7 +1313,7 @@ def locate(repo):
     tr, out = Translator(repo), []
     for spec in SPECS:
         mod = tr.module(spec["file"])
-        _, f, _ = mod.find_function(spec["cls"], spec["fn"], spec.get("prop", False))
+        _, f, _ = find_function(mod, spec)
         first, last, seg = mod.segment(f)
         out.append((f"{spec['cls']}.{spec['fn']}", spec["file"], first, last, hashlib.sha256(seg.encode()).hexdigest()))
     return out
